@@ -172,6 +172,47 @@ pub fn handler() -> Option<Arc<dyn Handler>> {
 }
 
 
+//------------ Hooked atomics -----------------------------------------------
+
+/// Atomic types whose every operation is preceded by a scheduling point.
+///
+/// A single atomic operation stays indivisible; a sequence of them (a load
+/// followed by a store, say) can be interleaved with other threads.
+pub mod atomic {
+    use std::sync::atomic::Ordering;
+
+    /// A hooked `AtomicUsize` with the operations the metrics use.
+    #[derive(Debug, Default)]
+    pub struct AtomicUsize(std::sync::atomic::AtomicUsize);
+
+    impl AtomicUsize {
+        pub const fn new(value: usize) -> Self {
+            Self(std::sync::atomic::AtomicUsize::new(value))
+        }
+
+        pub fn load(&self, order: Ordering) -> usize {
+            super::point("atomic.load");
+            self.0.load(order)
+        }
+
+        pub fn store(&self, value: usize, order: Ordering) {
+            super::point("atomic.store");
+            self.0.store(value, order)
+        }
+
+        pub fn fetch_add(&self, value: usize, order: Ordering) -> usize {
+            super::point("atomic.fetch_add");
+            self.0.fetch_add(value, order)
+        }
+
+        pub fn fetch_sub(&self, value: usize, order: Ordering) -> usize {
+            super::point("atomic.fetch_sub");
+            self.0.fetch_sub(value, order)
+        }
+    }
+}
+
+
 //------------ Hook Functions ------------------------------------------------
 
 /// An explicit scheduling point.
